@@ -192,7 +192,9 @@ theorem iter_eq_spec_ym (ya : YMArgs a) (h : construct a = .ok r) (n : Nat)
     intro k hk; exact Int.mul_le_mul_of_nonneg_right (by omega) (by omega)
   have sim : Simulation a r n (YMGood a r) := {
     agree := ym_cuts ya h
-    results := fun k st _ hg => (ym_results ya h k st hg).1
+    results := fun k st _ hg => by
+      obtain ⟨⟨fl, hres⟩, hb⟩ := ym_results ya h k st hg
+      exact ⟨fl, [], _, hres, rfl, by simp, hb⟩
     next := fun k st fl c hk hg => ym_next ya h k st fl c hg
       (fun f0 => by have := hy f0; have := hmono (k + 1) (by omega); omega)
       (fun f1 => by
@@ -201,7 +203,7 @@ theorem iter_eq_spec_ym (ya : YMArgs a) (h : construct a = .ok r) (n : Nat)
             (a.dtstart.y * 12 + (a.dtstart.m - 1) + n * a.interval) / 12 :=
           Int.ediv_le_ediv (by omega) (by omega)
         omega)
-    bounded := fun k st _ hg => (ym_results ya h k st hg).2 }
+    }
   obtain ⟨st0, hinit, hg0, hc0⟩ := ym_init ya h
   exact iter_refines sim st0 hinit hg0 hc0 n (by omega)
 
